@@ -53,7 +53,7 @@ func c15ProvisionStage(c *Ctx) int {
 					ids := repo.VerifIdentifiers()
 					res.Loaded = fmt.Sprintf("%d known", len(ids))
 					for _, id := range ids {
-						if e := repo.VerifEntry(id); e == nil || !e.VerifLoadedNow() {
+						if e := repo.VerifEntry(id); e == nil || !(e.VerifLoadedNow() || e.VerifLoadedUnlocked()) { // (a refresh may hold the lock right now)
 							res.Loaded += ", " + id + " not loaded"
 						}
 					}
